@@ -50,6 +50,11 @@ PY_OBJECTS = [['o', 'True', True], ['o', 'False', False], ['o', '1.5', True], ['
               ['o', '-7', True], ['o', '(1+2j)', True], ['o', 'frozenset()', False]]
 
 
+# instances of str subclasses whose str() differs from their text: only the flattening / TextBlock checks (C17) use them - how
+# such an object is *rendered* by an Indentizer is outside what the properties speak about ("strings")
+ALLOW_STR_SUBCLASS = False
+
+
 def rand_content(rng, depth=0, maxdepth=4, wf=False):
     """JSON-able content tree:
        ["n"] None | ["s", str] | ["o", str, truthy] other object | ["l", items] | ["d", items]
@@ -60,6 +65,9 @@ def rand_content(rng, depth=0, maxdepth=4, wf=False):
         k = k * 0.62
     if k < 0.08:
         return ['n']
+    if k < 0.12 and ALLOW_STR_SUBCLASS:
+        # an instance of a SUBCLASS of str (e.g. a str-valued Enum member): it is a string - its own text counts, not its str()
+        return ['ssub', rand_str(rng)]
     if k < 0.42:
         return ['s', rand_str(rng)]
     if k < 0.50:
@@ -93,7 +101,7 @@ def content_sx(c):
     t = c[0]
     if t == 'n':
         return [0]
-    if t == 's':
+    if t in ('s', 'ssub'):
         return [1, c[1]]
     if t == 'o':
         return [2, c[1], bool(c[2])]
@@ -127,7 +135,7 @@ def rand_indcfg(rng):
     if k < 0.4:
         b = None
     else:
-        g = rng.choice(['-', '//', '-->', '*', 'o', '>>>>>>', '', ' ', '- ', ' x', '•'])
+        g = rng.choice(['-', '//', '-->', '*', 'o', '>>>>>>', '', ' ', '- ', ' x', '•', '{}', '{0}', '{', '}', '{{', '{x}', '%s', '%', '\\'])
         b = [rng.random() < 0.5, g]
     return [tab, n, b]
 
